@@ -30,6 +30,24 @@ pub fn c01(opts: &Opts) -> Report {
     run_parallel(opts, "C01",
         "random mostly-well-typed pipelines over all 21 operations (length 0-8, map bodies 1-3, every argument shape) x inputs (empty, ASCII, mixed-width Unicode, multi-line, ANSI-decorated); a case is non-trivial when at least two operations were reached or a reached operation produced the error; distinct by (template text, input)",
         opts.cases(6_000, 300_000), &|ctx, i| {
+            if i % 6 == 5 {
+                // mixed template: literals and sections, repeated and near-duplicate sections, one input
+                let segs = super::templates::segments(&mut ctx.rng, 6);
+                let (text, secs) = super::templates::assemble(&segs);
+                let all_ops: Vec<Op> = secs.iter().filter_map(|s| if let Section::Sec(o) = s { Some(o.clone()) } else { None }).flatten().collect();
+                let x = gens::input_for(&mut ctx.rng, &all_ops);
+                ctx.rep.eval(); ctx.rep.bump("mixed_templates");
+                if secs.len() >= 2 { ctx.rep.nontrivial(&(text.clone(), x.clone())); }
+                let real_out = real::parse_format(&text, &x);
+                let r = ctx.drv.request(&format!("FORMAT {} {}", wire_template(false, &secs), hex(&x)));
+                let toks: Vec<&str> = r.iter().map(|s| s.as_str()).collect();
+                let (mi, n) = crate::driver::parse_out(&toks); let (ms, _) = crate::driver::parse_out(&toks[n + 1..]);
+                if real_out != ms || mi != real_out {
+                    viol(ctx, format!("C01: format({text:?}, {x:?}) = {} but the documented semantics gives {} (Impl model {})", real_out.show(), ms.show(), mi.show()),
+                         vec![("template", text.clone()), ("input", x.clone()), ("observed", real_out.show()), ("expected", ms.show()), ("impl_model", mi.show()), ("theorem", "C01_format_refines".into())]);
+                }
+                return;
+            }
             let ops = if i % 50 == 49 { long_input_ops(&mut ctx.rng) } else { gens::pipeline(&mut ctx.rng, 8) };
             let input = if i % 50 == 49 { long_input(&mut ctx.rng) } else { gens::input_for(&mut ctx.rng, &ops) };
             let t = triple(ctx, &ops, &input, false);
@@ -72,7 +90,7 @@ fn long_input(rng: &mut Rng) -> String {
 fn representative_ops() -> Vec<Op> {
     vec![
         Op::Split(",".into(), Range::Index(1)), Op::Split(",".into(), Range::Range(None, None, false)),
-        Op::Join("-".into()), Op::Replace("a".into(), "b".into(), "g".into()), Op::Upper, Op::Lower,
+        Op::Join("-".into()), Op::Replace("a".into(), "b".into(), "g".into()), Op::Replace("zz".into(), "y".into(), String::new()), Op::Upper, Op::Lower,
         Op::Trim(String::new(), TDir::Both), Op::Substring(Range::Range(Some(0), Some(2), false)),
         Op::Append("x".into()), Op::Prepend("y".into()), Op::Surround("'".into()), Op::StripAnsi,
         Op::Filter("a".into()), Op::FilterNot("zzz".into()), Op::Slice(Range::Range(Some(0), Some(5), false)),
@@ -83,21 +101,43 @@ fn representative_ops() -> Vec<Op> {
 }
 const C07_INPUTS: &[&str] = &["", "a", "a,b", "zzz", "b,a,a c,,d e f", ",", "x1,y2,z3,a,a,a,a,a,a,a,b"];
 
+/// prefixes that empty the intermediate list, so that what follows meets an empty list
+fn emptying_prefixes() -> Vec<Vec<Op>> {
+    let full = Range::Range(None, None, false);
+    vec![
+        vec![Op::Split(",".into(), full.clone()), Op::Filter("^ZZZ$".into())],
+        vec![Op::Split(",".into(), full.clone()), Op::Slice(Range::Range(Some(50), Some(60), false))],
+        vec![Op::Split(",".into(), Range::Range(Some(9), Some(3), false))],
+    ]
+}
+
 pub fn c07(opts: &Opts) -> Report {
     let reps = representative_ops();
     let n = reps.len() as u64;
     let depth: u32 = if opts.thorough() { 4 } else { 3 };
     let mut total = 0u64;
     for d in 1..=depth { total += n.pow(d); }
+    let prefixes = emptying_prefixes();
+    let ext = prefixes.len() as u64 * n * n;       // every pair of operations after every emptying prefix
     let reps_ref = &reps;
+    let prefixes_ref = &prefixes;
     let mut rep = run_parallel(opts, "C07",
-        "every sequence of operation kinds (all 21 operations, three map bodies: well-typed string body, well-typed list body, ill-typed body) up to the tier's length, enumerated exhaustively, each on 7 inputs that make intermediate lists empty, singleton and long; distinct by (template, input)",
-        total, &|ctx, mut i| {
-            // decode i into a sequence
-            let mut d = 1u32; let mut block = n;
-            while i >= block { i -= block; d += 1; block = n.pow(d); }
+        "every sequence of operation kinds (all 21 operations, three map bodies: well-typed string body, well-typed list body, ill-typed body) up to the tier's length, enumerated exhaustively, plus every pair of operations after each of three prefixes that empty the intermediate list; each on 7 inputs that make intermediate lists empty, singleton and long; distinct by (template, input)",
+        total + ext, &|ctx, i0| {
             let mut ops = Vec::new();
-            for _ in 0..d { ops.push(reps_ref[(i % n) as usize].clone()); i /= n; }
+            let d;
+            if i0 < total {
+                let mut i = i0;
+                let mut dd = 1u32; let mut block = n;
+                while i >= block { i -= block; dd += 1; block = n.pow(dd); }
+                for _ in 0..dd { ops.push(reps_ref[(i % n) as usize].clone()); i /= n; }
+                d = dd;
+            } else {
+                let mut i = i0 - total;
+                ops = prefixes_ref[(i / (n * n)) as usize].clone(); i %= n * n;
+                ops.push(reps_ref[(i % n) as usize].clone()); ops.push(reps_ref[(i / n) as usize].clone());
+                d = 4;
+            }
             let r = ctx.drv.request(&format!("TYPE {}", wire_ops(&ops)));
             let infer_none = r[0] == "none";
             let well_typed = r[1] == "1";
@@ -131,9 +171,29 @@ pub fn c08(opts: &Opts) -> Report {
     run_parallel(opts, "C08",
         "random sub-pipelines over every operation allowed inside map x lists with empty items, duplicates, non-ASCII, one/many items, failing items at random positions; the map run is compared with n standalone runs of {Q} through the public API and with the model; non-trivial when the list has >= 2 items; distinct by (template, input)",
         opts.cases(3_000, 100_000), &|ctx, i| {
-            let body = { let n = 1 + ctx.rng.below(4); gens::pipeline_from(&mut ctx.rng, false, n, false) };
+            let body = if ctx.rng.chance(1, 4) { vec![ctx.rng.pick(&[Op::Upper, Op::Lower, Op::Reverse, Op::Trim(String::new(), TDir::Both), Op::Substring(Range::Range(Some(1), None, false)), Op::Pad(6, '*', PDir::Left)]).clone()] }
+                       else { let n = 1 + ctx.rng.below(4); gens::pipeline_from(&mut ctx.rng, false, n, false) };
             let s = gens::sep(&mut ctx.rng);
             let j = gens::sep(&mut ctx.rng);
+            if i % 5 == 4 {
+                // an earlier stage of the same template changes the items (e.g. makes them non-ASCII although the
+                // input is pure ASCII) before the map under test: the map must see the items, not the original input
+                let pre = match ctx.rng.below(4) {
+                    0 => Op::Map(vec![Op::Append(ctx.rng.pick(&["é", "ß", "日", "ǆ"]).to_string())]),
+                    1 => Op::Map(vec![Op::Prepend(ctx.rng.pick(&["É", "ß", "😀"]).to_string())]),
+                    2 => Op::Map(vec![Op::Replace("a".into(), ctx.rng.pick(&["ä", "ß", "İ"]).to_string(), "g".into())]),
+                    _ => Op::Map(vec![Op::Surround("ñ".into())]),
+                };
+                let mut ops = vec![Op::Split(",".into(), Range::Range(None, None, false)), pre, Op::Map(body.clone())];
+                if ctx.rng.chance(1, 2) { ops.insert(0, Op::Replace("ss".into(), "ß".into(), "g".into())); }
+                let input = ctx.rng.pick(&["caf,th,x", "strasse,gross,ab", "a,b,c", "hello world,foo", "abc", ""]).to_string();
+                let t = triple(ctx, &ops, &input, false);
+                ctx.rep.eval(); ctx.rep.bump("pre_stage_cases");
+                ctx.rep.nontrivial(&(t.text.clone(), input.clone()));
+                hist(ctx, &ops, &input, &t.real);
+                judge(ctx, "C08", &t, &ops, &input, "C08_code_does_this");
+                return;
+            }
             let ops = vec![Op::Split(s.clone(), Range::Range(None, None, false)), Op::Map(body.clone()), Op::Join(j.clone())];
             let input = gens::input_for(&mut ctx.rng, &ops);
             let t = triple(ctx, &ops, &input, false);
@@ -166,9 +226,13 @@ pub fn c09(opts: &Opts) -> Report {
     run_parallel(opts, "C09",
         "inputs x separators (one ASCII byte, several bytes, non-ASCII, empty, self-overlapping) x list-preserving tails, sizes straddling the split-cache limits; the three identities are evaluated through the public API and each run is compared with the model; non-trivial when the separator occurs in the input; distinct by (input, separator, tail)",
         opts.cases(4_000, 200_000), &|ctx, i| {
-            let s = gens::sep(&mut ctx.rng);
+            let mut s = gens::sep(&mut ctx.rng);
+            if i % 40 == 17 || i % 40 == 18 { s = "3".to_string(); }
             let big = i % 40 == 39;
-            let x = if big { long_input(&mut ctx.rng) } else {
+            // the two inputs below have the same 64-bit DefaultHasher value: visiting one right after the other
+            // exposes a split cache keyed by the hash instead of the text
+            let collide = i % 40 == 17 || i % 40 == 18;
+            let x = if collide { if i % 40 == 17 { super::templates::COLLIDE_A.to_string() } else { super::templates::COLLIDE_B.to_string() } } else if big { long_input(&mut ctx.rng) } else {
                 let base = Op::Split(s.clone(), Range::Range(None, None, false));
                 let mut x = gens::input_for(&mut ctx.rng, &[base]);
                 if ctx.rng.chance(1, 4) { x = gens::unicode_text(&mut ctx.rng, 12); }
@@ -231,8 +295,34 @@ pub fn c14(opts: &Opts) -> Report {
         "regex pool (literals, classes, anchors, groups, named groups, alternation, quantifiers, case variants, invalid patterns) x all orders of every subset of g,i,m,s x replacements with $0/$1/${name} x inputs with and without matches, newlines, mixed case; expected value computed by calling regex 1.11.1 directly with the documented flag mapping; distinct by (template, input)",
         opts.cases(6_000, 300_000), &|ctx, i| {
             let x = regex_text(&mut ctx.rng);
+            if i % 6 == 5 {
+                // two replaces in a row with the SAME pattern text and DIFFERENT flags: nothing of the first may leak into the second
+                let pat = ctx.rng.pick(&["hello", "^l", "o", "Line", "a.c", "l+", "world$", "B"]).to_string();
+                let f1 = gens::flags(&mut ctx.rng); let mut f2 = gens::flags(&mut ctx.rng);
+                if f1 == f2 { f2 = if f1.contains('i') { f1.replace('i', "") } else { format!("{f1}i") }; }
+                let (r1, r2) = ("<$0>".to_string(), "[$0]".to_string());
+                let apply = |text: &str, fl: &str, repl: &str| -> Option<String> {
+                    let mut pfx = String::new(); for c in ['i', 'm', 's'] { if fl.contains(c) { pfx.push(c); } }
+                    let full = if pfx.is_empty() { pat.clone() } else { format!("(?{pfx}){pat}") };
+                    regex::Regex::new(&full).ok().map(|re| if fl.contains('g') { re.replace_all(text, repl).to_string() } else { re.replace(text, repl).to_string() })
+                };
+                let expected = match apply(&x, &f1, &r1).and_then(|m| apply(&m, &f2, &r2)) { Some(o) => Out::Ok(o), None => Out::Err };
+                let ops = vec![Op::Replace(pat.clone(), r1, f1), Op::Replace(pat.clone(), r2, f2)];
+                let t = triple(ctx, &ops, &x, false);
+                ctx.rep.eval(); ctx.rep.bump("double_replace_cases");
+                ctx.rep.nontrivial(&(t.text.clone(), x.clone()));
+                if !judge(ctx, "C14", &t, &ops, &x, "C14_replace_is_engine") { return; }
+                if t.real != expected {
+                    viol(ctx, format!("C14: {} on {:?} = {} but the regex crate called directly gives {}", t.text, x, t.real.show(), expected.show()),
+                         vec![("template", t.text.clone()), ("input", x.clone()), ("observed", t.real.show()), ("expected", expected.show()), ("theorem", "C14_replace_is_engine".into())]);
+                }
+                return;
+            }
             let kind = ctx.rng.below(5);
-            let pat = if ctx.rng.chance(1, 4) { ctx.rng.pick(&["hello", "WORLD", "o", "Line", "a", "É", "txt", "zzz", "l"]).to_string() } else { gens::regex(&mut ctx.rng) };
+            let mut x = x;
+            // characters whose case folding is not what to_lowercase/to_uppercase give (long s, final sigma, Kelvin sign, dotless i)
+            if ctx.rng.chance(1, 8) { x = format!("{} ſ ς K ı İ", x); }
+            let pat = if ctx.rng.chance(1, 4) { ctx.rng.pick(&["hello", "WORLD", "o", "Line", "a", "É", "txt", "zzz", "l", "s", "σ", "k", "i", "ß"]).to_string() } else { gens::regex(&mut ctx.rng) };
             let (ops, expected): (Vec<Op>, Out) = match kind {
                 0 | 1 => {
                     let fl = gens::flags(&mut ctx.rng);
